@@ -16,7 +16,7 @@ from models import model, Some, NONE, Ok, Err, deref, as_list
 from natives_fs import PStr, text_of
 from fmt_model import SymStr, Sink, str_bytes
 
-STARTS = ["r", "./r/", "-r", "r x"]
+STARTS = ["r", "./r/", "-r", "r x", ("sym", 1), ("sym", 2)]     # the last two: a starting point of 1 / 2 symbolic bytes
 # shape of the tree below the starting point: (parent index or -1 for the starting point, length of the name)
 SHAPES = {"flat1": [(-1, 1)], "flat2": [(-1, 2)], "two": [(-1, 1), (-1, 1)], "nested": [(-1, 1), (0, 1)], "nested21": [(-1, 2), (0, 1)], "three": [(-1, 1), (0, 2), (-1, 1)],
           "name3": [(-1, 3)]}
@@ -34,7 +34,7 @@ def join(parent, name):
 
 def build_tree(start, shape, names):
     """-> pre-order list of (path bytes, depth, is_dir)"""
-    root = list(start.encode())
+    root = list(start.encode()) if isinstance(start, str) else list(start)
     ents = [(root, 0, True)]
     paths = []
     for (par, _ln), nm in zip(shape, names):
@@ -81,7 +81,8 @@ def explore(shape_name, funcs, index, enums, mode="print0"):
 
     # ---- walkdir on the scripted tree
     def wd_new(m, args):
-        state["wd"] = {"root": text_of(m, args[0])}
+        r = deref(args[0])
+        state["wd"] = {"root": r.chars if isinstance(r, SymStr) else text_of(m, args[0])}
         return Struct("WalkDir", [])
 
     def wd_opt(name):
@@ -114,7 +115,7 @@ def explore(shape_name, funcs, index, enums, mode="print0"):
 
     def comps(chars):
         """std::path components of a byte list whose '/' are all concrete (names cannot contain '/')"""
-        root = bool(chars) and chars[0] == ord("/")
+        root = bool(chars) and isinstance(chars[0], int) and chars[0] == ord("/")
         parts, cur = [], []
         for c in chars:
             if isinstance(c, int) and c == ord("/"):
@@ -212,7 +213,10 @@ def explore(shape_name, funcs, index, enums, mode="print0"):
                "parse_str_to_newer_args": lambda m, a: NONE()}
     m = Machine(funcs, index, enums, models, natives=natives, max_steps=2000000)
     # every ASCII byte a file name can hold: 1..127 without '/'
-    m.base_constraints = [z3.And(c >= 1, c <= 127, c != ord("/")) for nm in names for c in nm] + [start_i >= 0, start_i < len(STARTS)]
+    sym_start = [z3.Int("s%d" % j) for j in range(2)]
+    m.base_constraints = [z3.And(c >= 1, c <= 127, c != ord("/")) for nm in names + [sym_start] for c in nm] + [start_i >= 0, start_i < len(STARTS)]
+    # the symbolic starting point is not ".", "..", and does not start with '-' (it would be an option) - "-r" covers the './-' spelling
+    m.base_constraints += [sym_start[0] != ord("."), sym_start[0] != ord("-"), sym_start[0] != ord("!"), sym_start[0] != ord("("), sym_start[0] != ord(")"), sym_start[0] != ord(",")]
     # a name is not "." or ".." (no directory entry is called that)
     for nm in names:
         if len(nm) == 1:
@@ -228,6 +232,8 @@ def explore(shape_name, funcs, index, enums, mode="print0"):
         try:
             st = m.decide_int(start_i, list(range(len(STARTS) - 1)))
             start = STARTS[len(STARTS) - 1 if st is None else st]
+            if not isinstance(start, str):
+                start = sym_start[:start[1]]
             cfg = [m.call("<Config as Default>::default", [])]
             r = m.call("build_top_level_matcher", [SliceRef([RStr(t) for t in expr]), Ptr(cfg, 0)])
             if r.variant != "Ok":
@@ -237,7 +243,7 @@ def explore(shape_name, funcs, index, enums, mode="print0"):
             if m.decide(depth_first):
                 cfg[0].fields[1] = True
             quit_cell = [False]
-            ret = m.call("process_dir", [RStr(start), Ptr(cfg, 0), Opaque("deps"), Ptr(r.fields[0].cell, 0), Ptr(quit_cell, 0)])
+            ret = m.call("process_dir", [RStr(start) if isinstance(start, str) else SymStr(start), Ptr(cfg, 0), Opaque("deps"), Ptr(r.fields[0].cell, 0), Ptr(quit_cell, 0)])
             written = list(state["sink"].bytes)
             argv = None
             if mode == "print0":
@@ -305,9 +311,9 @@ def explore(shape_name, funcs, index, enums, mode="print0"):
                             continue
                         prove_eq(gb, p, "argument %d of the command" % (k + 1))
         for w in bad:
-            res["violations"].append({"what": w, "start": start, "shape": shape_name, "mode": mode, "depth_first": bool(cfg[0].fields[1])})
+            res["violations"].append({"what": w, "start": start if isinstance(start, str) else "<%d symbolic bytes>" % len(start), "shape": shape_name, "mode": mode, "depth_first": bool(cfg[0].fields[1])})
         if len(res["samples"]) < 2:
-            res["samples"].append({"start": start, "entries": len(order), "bytes_written": len(written), "argv_len": argv and len(argv[0])})
+            res["samples"].append({"start": str(start), "entries": len(order), "bytes_written": len(written), "argv_len": argv and len(argv[0])})
     res["wall_s"] = round(time.time() - t0, 2)
     res["solver_calls"] = m.stats["solver_calls"]
     res["functions_executed"] = sorted(m.executed)
